@@ -88,7 +88,35 @@ var formats = []format{
 	{"stl", ".stl", func(r io.Reader) (*astisub.Subtitles, error) { return astisub.ReadFromSTL(r, astisub.STLOptions{}) }, func(s *astisub.Subtitles, w io.Writer) error { return s.WriteToSTL(w) }},
 }
 
+// teletext is read only: it joins the reader suites (schedules, read faults), not the writer loops over [formats].
+// PID and page are auto-detected, so the reader makes two passes with a rewind in between: the scheduled reader it gets
+// is seekable (schedSeeker), like the files and in-memory readers of the one-shot run.
+var teletextFormat = format{"teletext", ".ts", func(r io.Reader) (*astisub.Subtitles, error) {
+	return astisub.ReadFromTeletext(r, astisub.TeletextOptions{})
+}, nil}
+
+// schedSeeker: a scheduled reader that can be rewound; the delivery schedule simply goes on after a Seek
+type schedSeeker struct{ *schedReader }
+
+func (s schedSeeker) Seek(off int64, whence int) (int64, error) {
+	if whence != io.SeekStart || off < 0 || off > int64(len(s.data)) {
+		return 0, errors.New("schedSeeker: unsupported seek")
+	}
+	s.pos = int(off)
+	return off, nil
+}
+
+func schedFor(format string, s *schedReader) io.Reader {
+	if format == "teletext" {
+		return schedSeeker{s}
+	}
+	return s
+}
+
 func formatByName(n string) format {
+	if n == "teletext" {
+		return teletextFormat
+	}
 	for _, f := range formats {
 		if f.name == n {
 			return f
@@ -163,6 +191,14 @@ func sampleDocs(r *rng, perFormat int, big bool) []sampleDoc {
 	srt16 := "1\n00:00:01,000 --> 00:00:02,000\nsmile \U0001F600 and clef \U0001D11E\n\n"
 	docs = append(docs, sampleDoc{"ttml", "utf16le-astral", utf16doc(ttml16, false)}, sampleDoc{"ttml", "utf16be-astral", utf16doc(ttml16, true)},
 		sampleDoc{"srt", "utf16le-astral", utf16doc(srt16, false)}, sampleDoc{"webvtt", "utf16le-astral", utf16doc("WEBVTT\n\n"+strings.ReplaceAll(srt16, ",", "."), false)})
+	// teletext: transport streams of the C06 generator (page schedules muxed with astits), 188-byte packets
+	for i := 0; i < perFormat; i++ {
+		sch := randSchedule(r)
+		mux := ttxMux{unitsPerPES: r.intn(4), distractors: r.chance(1, 2), stuffing: r.chance(1, 3)}
+		if ts, _, err := buildTS(r, sch, mux); err == nil {
+			docs = append(docs, sampleDoc{"teletext", fmt.Sprintf("stream-%d", i), ts})
+		}
+	}
 	for i := 0; i < perFormat; i++ {
 		cues := plainCues(r, 1+r.intn(5))
 		for _, f := range formats {
@@ -238,14 +274,14 @@ func describeSchedule(counts []int, withEOF bool) string {
 }
 
 func suiteSchedules(R *runner, r *rng) {
-	R.rule("schedules: documents of every format (repository samples, library-written cue lists, rendered SRT, CR and CRLF variants, one 2500-cue document per format) x delivery schedules: every single split point (exhaustive for documents up to 1500 bytes, sampled beyond), one-byte reads, halves, random chunk sequences, empty reads interleaved, last bytes together with EOF, splits aligned on 4096/65536; oracle: the parse result (deep snapshot or the fact of failing) equals the one-shot result; the line scanner's tokens are also compared with the Coq model [scan] on the same schedule; non-trivial = the schedule splits the document")
+	R.rule("schedules: documents of every format incl. teletext transport streams (repository samples, generated teletext streams read with PID/page auto-detection through a seekable scheduled reader, library-written cue lists, rendered SRT, CR and CRLF variants, one 2500-cue document per format) x delivery schedules: every single split point (exhaustive for documents up to 1500 bytes, sampled beyond), one-byte reads, halves, random chunk sequences, empty reads interleaved, last bytes together with EOF, splits aligned on 4096/65536; oracle: the parse result (deep snapshot or the fact of failing) equals the one-shot result; the line scanner's tokens are also compared with the Coq model [scan] on the same schedule; non-trivial = the schedule splits the document")
 	docs := sampleDocs(r, 3, true)
 	quick := R.tier != "thorough"
 	for _, d := range docs {
 		f := formatByName(d.format)
 		base := readWith(f, bytes.NewReader(d.data))
 		try := func(counts []int, withEOF bool, group string) {
-			got := readWith(f, &schedReader{data: d.data, counts: counts, withEOF: withEOF, failAt: -1})
+			got := readWith(f, schedFor(d.format, &schedReader{data: d.data, counts: counts, withEOF: withEOF, failAt: -1}))
 			o := &obs{Suite: "sched", Group: group + "." + d.format, NoModel: true, NT: len(counts) > 0,
 				Input: fmt.Sprintf("%s/%s %s", d.format, d.name, describeSchedule(counts, withEOF)),
 				Human: map[string]interface{}{"format": d.format, "doc": d.name, "len": len(d.data), "schedule": describeSchedule(counts, withEOF)}}
@@ -458,7 +494,7 @@ func (w *failWriter) Write(p []byte) (int, error) {
 }
 
 func suiteFaults(R *runner, r *rng) {
-	R.rule("faults: for documents of every format, a read error (not EOF) injected at byte offset k, for every k up to 600 offsets per document (all offsets in the thorough tier), delivered alone or together with the last bytes; for TTML up to the end of the root element; lines of 2^16..2^20 bytes; for cue lists written to every format, a destination failing after k bytes for every k below the document length (sampled beyond 600); file helpers on missing / uncreatable paths, a destination that refuses every byte (/dev/full) and a source whose reads fail (a directory); oracle: a non-nil error is returned; without a fault the complete document reaches the destination; non-trivial = the fault hits before the end of the document")
+	R.rule("faults: for documents of every format incl. teletext transport streams, a read error (not EOF) injected at byte offset k, for every k up to 600 offsets per document (all offsets in the thorough tier), delivered alone or together with the last bytes; for TTML up to the end of the root element; lines of 2^16..2^20 bytes; for cue lists written to every format, a destination failing after k bytes for every k below the document length (sampled beyond 600); file helpers on missing / uncreatable paths, a destination that refuses every byte (/dev/full) and a source whose reads fail (a directory); oracle: a non-nil error is returned; without a fault the complete document reaches the destination; non-trivial = the fault hits before the end of the document")
 	docs := sampleDocs(r, 2, false)
 	quick := R.tier != "thorough"
 	for _, d := range docs {
@@ -485,7 +521,7 @@ func suiteFaults(R *runner, r *rng) {
 				var s *astisub.Subtitles
 				var err error
 				p := safely(func() {
-					s, err = f.read(&schedReader{data: d.data, failAt: k, failWithData: withData, counts: []int{r.intn(n + 1)}})
+					s, err = f.read(schedFor(d.format, &schedReader{data: d.data, failAt: k, failWithData: withData, counts: []int{r.intn(n + 1)}}))
 				})
 				o := &obs{Suite: "fault", Group: "fault.read." + d.format, NoModel: true, NT: k < n,
 					Input: fmt.Sprintf("%s/%s fault at %d with_data=%v", d.format, d.name, k, withData),
